@@ -27,8 +27,8 @@ type Op struct {
 
 type Fault struct {
 	Kind string `json:"kind"`        // none | capacity | oneshot
-	C    int64  `json:"c,omitempty"` // capacity: absolute offsets >= C are refused
-	J    int    `json:"j,omitempty"` // oneshot: the J-th non-empty underlying call fails with (0, errIO)
+	C    int64  `json:"c,omitempty"` // capacity: absolute offsets >= C are refused; oneshot: the trip offset
+	J    int    `json:"j,omitempty"` // (unused, kept for old case files)
 }
 
 type Case struct {
@@ -41,9 +41,9 @@ type Case struct {
 
 var checker = &vk.Checker[Case]{
 	ID: "C18",
-	Rule: "sections (off in {0,1,7,100,2^32+5}, n in {0,1,2,8,64}) or AtToWriter(w, off) over a recording in-memory WriterAt with a fault plan (none; capacity C: bytes at absolute offset >= C refused after writing those below with (m<len, errFull); one-shot: the j-th non-empty call returns (0, errIO)); " +
-		"histories of <= 40 (thorough <= 200) steps: Write(len 0, 1, .., exactly to the limit, crossing it), WriteAt(buf, o in [-2, n+3]), Seek(offset in [-n-3, n+3] or 2^33, whence in {0,1,2,3,-1}), Size; each buffer carries a per-step byte pattern. " +
-		"Reference model: base/cursor/limit + expected memory image + expected (n, error class) per step; after EVERY step: return values, every byte the recorder received lies inside [off, off+n) at the predicted position with the predicted content, image == model, cursor == model (observed via Seek(0, SeekCurrent)), Size()==n. " +
+	Rule: "sections (off in {0,1,7,100,2^32+5}, n in {0,1,2,8,64}) or AtToWriter(w, off) over a recording in-memory WriterAt with a fault plan (none; capacity C: bytes at absolute offset >= C refused after writing those below with (m<len, errFull); one-shot: the first write covering a trip offset stores the bytes before it and fails with errIO); " +
+		"histories of <= 40 (thorough <= 200) steps: Write(len 0, 1, .., exactly to the limit, crossing it), WriteAt(buf, o in [-2, n+3]), Seek(offset in [-n-3, n+3] or 2^33, whence in {0,1,2,3,-1}), Size; each buffer carries a per-step byte pattern; fixed histories with buffers of several MiB. " +
+		"Reference model: base/cursor/limit + expected memory image + expected (n, error class) per step; after EVERY step: return values, every byte the recorder received lies inside [off, off+n), the memory image (position and content of every byte that landed) == model (the number of underlying calls is not asserted), cursor == model (observed via Seek(0, SeekCurrent)), Size()==n. " +
 		"Non-trivial: >= 2 writes with a Seek or a truncated/failed write before a later write. Distinct by hash of the history.",
 	Check:    check,
 	Classify: classify,
@@ -58,37 +58,74 @@ type call struct {
 	n   int
 }
 
+// image is a sparse memory image in 4 KiB pages (bytes + which of them were written).
+type page struct {
+	b [4096]byte
+	w [4096]bool
+}
+
+type image struct{ pages map[int64]*page }
+
+func newImage() *image { return &image{pages: map[int64]*page{}} }
+
+func (im *image) write(off int64, p []byte) {
+	for i, x := range p {
+		a := off + int64(i)
+		pg := im.pages[a>>12]
+		if pg == nil {
+			pg = &page{}
+			im.pages[a>>12] = pg
+		}
+		pg.b[a&4095], pg.w[a&4095] = x, true
+	}
+}
+
+// diff returns the first absolute offset at which two images differ.
+func (im *image) diff(o *image) (int64, bool) {
+	for _, pair := range [][2]*image{{im, o}, {o, im}} {
+		for k, pg := range pair[0].pages {
+			og := pair[1].pages[k]
+			for i := range pg.b {
+				if pg.w[i] && (og == nil || !og.w[i] || og.b[i] != pg.b[i]) {
+					return k<<12 + int64(i), true
+				}
+			}
+		}
+	}
+	return 0, false
+}
+
 type recorder struct {
-	img      map[int64]byte
+	img      *image
 	calls    []call
 	fault    Fault
 	nonEmpty int
+	tripped  bool
 }
 
 func (r *recorder) WriteAt(p []byte, off int64) (int, error) {
 	r.calls = append(r.calls, call{off, len(p)})
-	if len(p) > 0 {
-		r.nonEmpty++
-		if r.fault.Kind == "oneshot" && r.nonEmpty == r.fault.J {
-			return 0, errIO
-		}
-	}
 	n := len(p)
 	var err error
 	if r.fault.Kind == "capacity" && off+int64(len(p)) > r.fault.C {
 		n = int(max(r.fault.C-off, 0))
 		err = errFull
 	}
-	for i := 0; i < n; i++ {
-		r.img[off+int64(i)] = p[i]
+	// one-shot fault, defined by position (not by call number, so that it means the same for an
+	// implementation that splits a buffer into several calls): the first write that covers the trip
+	// offset stores the bytes before it and fails; later writes are not affected
+	if r.fault.Kind == "oneshot" && !r.tripped && len(p) > 0 && off <= r.fault.C && r.fault.C < off+int64(len(p)) {
+		r.tripped = true
+		n, err = int(r.fault.C-off), errIO
 	}
+	r.img.write(off, p[:n])
 	return n, err
 }
 
 func pattern(step, n int) []byte {
 	b := make([]byte, n)
 	for i := range b {
-		b[i] = byte(1 + (step*37+i*11)%255)
+		b[i] = byte(1 + (step*37+i*11+i>>8*13+i>>16*7)%255)
 	}
 	return b
 }
@@ -97,30 +134,27 @@ func pattern(step, n int) []byte {
 
 type model struct {
 	base, cur, limit int64
-	img              map[int64]byte
+	img              *image
 	fault            Fault
 	nonEmpty         int
+	tripped          bool
 	calls            []call
 }
 
 // under models the underlying writer's answer to WriteAt(p, off).
 func (m *model) under(p []byte, off int64) (int, error) {
 	m.calls = append(m.calls, call{off, len(p)})
-	if len(p) > 0 {
-		m.nonEmpty++
-		if m.fault.Kind == "oneshot" && m.nonEmpty == m.fault.J {
-			return 0, errIO
-		}
-	}
 	n := len(p)
 	var err error
 	if m.fault.Kind == "capacity" && off+int64(len(p)) > m.fault.C {
 		n = int(max(m.fault.C-off, 0))
 		err = errFull
 	}
-	for i := 0; i < n; i++ {
-		m.img[off+int64(i)] = p[i]
+	if m.fault.Kind == "oneshot" && !m.tripped && len(p) > 0 && off <= m.fault.C && m.fault.C < off+int64(len(p)) {
+		m.tripped = true
+		n, err = int(m.fault.C-off), errIO
 	}
+	m.img.write(off, p[:n])
 	return n, err
 }
 
@@ -191,8 +225,8 @@ func sameErr(got, want error) bool {
 }
 
 func check(c Case) *vk.Failure {
-	rec := &recorder{img: map[int64]byte{}, fault: c.Fault}
-	m := &model{base: c.Off, cur: c.Off, img: map[int64]byte{}, fault: c.Fault}
+	rec := &recorder{img: newImage(), fault: c.Fault}
+	m := &model{base: c.Off, cur: c.Off, img: newImage(), fault: c.Fault}
 	var w io.Writer
 	if c.Kind == "section" {
 		m.limit = c.Off + c.N
@@ -290,21 +324,10 @@ func check(c Case) *vk.Failure {
 				return vk.Failf("outside-section", "%s: underlying WriteAt(%d bytes at %d) lies outside [%d,%d)", step, cl.n, cl.off, c.Off, c.Off+c.N)
 			}
 		}
-		if len(rec.calls) != len(m.calls) {
-			return vk.Failf("underlying-calls", "%s: the underlying writer received %d calls in total, the model predicts %d (last real %v)", step, len(rec.calls), len(m.calls), newCalls)
-		}
-		for i := callsBefore; i < len(rec.calls); i++ {
-			if rec.calls[i] != m.calls[i] {
-				return vk.Failf("underlying-call", "%s: underlying call %d was (off=%d,len=%d), the model predicts (off=%d,len=%d)", step, i, rec.calls[i].off, rec.calls[i].n, m.calls[i].off, m.calls[i].n)
-			}
-		}
-		if len(rec.img) != len(m.img) {
-			return vk.Failf("image", "%s: %d bytes landed, the model predicts %d", step, len(rec.img), len(m.img))
-		}
-		for k, v := range m.img {
-			if g, ok := rec.img[k]; !ok || g != v {
-				return vk.Failf("image", "%s: byte at absolute offset %d is %d (present=%v), the model predicts %d", step, k, g, ok, v)
-			}
+		// (how many calls the bytes arrive in is not part of the property: only where they land,
+		// what they are, and what is returned - compared through the memory image below)
+		if at, differ := rec.img.diff(m.img); differ {
+			return vk.Failf("image", "%s: the bytes that landed differ from the model at absolute offset %d (section-relative %d)", step, at, at-c.Off)
 		}
 		// cursor, observed without moving it
 		if seeker != nil {
@@ -332,7 +355,7 @@ func classify(c Case) (bool, []string) {
 		labels = append(labels, "n=0")
 	}
 	// replay the model alone
-	m := &model{base: c.Off, cur: c.Off, img: map[int64]byte{}, fault: c.Fault, limit: math.MaxInt64}
+	m := &model{base: c.Off, cur: c.Off, img: newImage(), fault: c.Fault, limit: math.MaxInt64}
 	if c.Kind == "section" {
 		m.limit = c.Off + c.N
 	}
@@ -393,13 +416,13 @@ func genCase(t *rapid.T) Case {
 	case 0:
 		c.Fault = Fault{Kind: "capacity", C: c.Off - 1 + int64(gen.Uniform(t, int(span)+4, "cap"))}
 	case 1:
-		c.Fault = Fault{Kind: "oneshot", J: 1 + gen.Uniform(t, 6, "j")}
+		c.Fault = Fault{Kind: "oneshot", C: c.Off + int64(gen.Uniform(t, int(span)+2, "trip"))}
 	default:
 		c.Fault = Fault{Kind: "none"}
 	}
 	n := 1 + gen.Len(t, vk.Pick(39, 199), "steps")
 	// the generator follows the cursor with its own copy of the model so that it can aim at the limit
-	m := &model{base: c.Off, cur: c.Off, img: map[int64]byte{}, fault: c.Fault, limit: math.MaxInt64}
+	m := &model{base: c.Off, cur: c.Off, img: newImage(), fault: c.Fault, limit: math.MaxInt64}
 	if c.Kind == "section" {
 		m.limit = c.Off + c.N
 	}
@@ -474,8 +497,12 @@ func TestGrid(t *testing.T) {
 		{Kind: "section", Off: 7, N: 8, Fault: Fault{Kind: "none"}, Ops: []Op{{K: "write", Len: 3}, {K: "write", Len: 3}, {K: "write", Len: 3}, {K: "write", Len: 1}}},
 		{Kind: "section", Off: 100, N: 8, Fault: Fault{Kind: "none"}, Ops: []Op{{K: "seek", O: 2, Whence: 0}, {K: "write", Len: 2}, {K: "seek", O: -1, Whence: 1}, {K: "write", Len: 9}, {K: "seek", O: -3, Whence: 2}, {K: "write", Len: 1}}},
 		{Kind: "section", Off: 1, N: 64, Fault: Fault{Kind: "capacity", C: 10}, Ops: []Op{{K: "write", Len: 5}, {K: "write", Len: 10}, {K: "write", Len: 1}, {K: "writeat", Len: 4, O: 7}}},
-		{Kind: "attowriter", Off: 1<<32 + 5, Fault: Fault{Kind: "oneshot", J: 2}, Ops: []Op{{K: "write", Len: 5}, {K: "write", Len: 10}, {K: "write", Len: 1}, {K: "seek", O: 3, Whence: 0}, {K: "write", Len: 2}}},
+		{Kind: "attowriter", Off: 1<<32 + 5, Fault: Fault{Kind: "oneshot", C: 1<<32 + 5 + 9}, Ops: []Op{{K: "write", Len: 5}, {K: "write", Len: 10}, {K: "write", Len: 1}, {K: "seek", O: 3, Whence: 0}, {K: "write", Len: 2}}},
 		{Kind: "section", Off: 0, N: 0, Fault: Fault{Kind: "none"}, Ops: []Op{{K: "write", Len: 0}, {K: "write", Len: 1}, {K: "writeat", Len: 0, O: 0}, {K: "seek", O: 0, Whence: 2}, {K: "size"}}},
+		// buffers of several MiB (size thresholds of any chunked implementation), also truncated by the section end and by a full device
+		{Kind: "section", Off: 7, N: 5 << 20, Fault: Fault{Kind: "none"}, Ops: []Op{{K: "write", Len: 1<<20 + 1}, {K: "write", Len: 2<<20 + 5}, {K: "writeat", Len: 1<<20 + 3, O: 100}, {K: "seek", O: -10, Whence: 2}, {K: "write", Len: 3 << 20}}},
+		{Kind: "attowriter", Off: 100, Fault: Fault{Kind: "capacity", C: 100 + 2<<20 + 17}, Ops: []Op{{K: "write", Len: 1 << 20}, {K: "write", Len: 1<<20 + 1}, {K: "write", Len: 1 << 20}, {K: "write", Len: 5}}},
+		{Kind: "section", Off: 1, N: 3<<20 + 9, Fault: Fault{Kind: "oneshot", C: 1 + 1<<20 + 77}, Ops: []Op{{K: "write", Len: 65539}, {K: "write", Len: 2 << 20}, {K: "write", Len: 2 << 20}, {K: "writeat", Len: 4 << 20, O: 3}}},
 	} {
 		checker.Run(t, c)
 	}
